@@ -292,10 +292,10 @@ fn judge_real_thread(case: &GCase) -> Verdict {
 
 fn zippy_strategy() -> BoxedStrategy<GCase> {
     use crate::props::c20::{cfg_text, file_text, mask_keys, C20, CHORD_KEYS};
-    (C20.strategy(Tier::Quick, 0), prop::collection::vec((any::<u16>(), 0usize..6, 0usize..6), 1..7))
+    (C20.strategy(Tier::Quick, 0), prop::collection::vec((any::<u16>(), 0usize..8, 0usize..8), 1..7))
         .prop_map(|(z, steps)| {
-            // deadline and idle-reactivate-time are 500 ms in that configuration
-            let pauses = [5u32, 20, 480, 520, 1100, 10_500];
+            // deadline 300 ms and idle-reactivate-time 400 ms in that configuration
+            let pauses = [5u32, 20, 290, 310, 390, 410, 1100, 10_500];
             let mut events = vec![];
             for (sel, p1, p2) in steps {
                 let e = &z.entries[pick(sel, z.entries.len())];
@@ -344,7 +344,7 @@ impl TypedProp for C07 {
             level: "exploration",
             rule: "configs: grammar-generated with every time-dependent feature (tap-hold, one-shot, tap-dance, chords v1/v2, macros, sequences, caps-word, hold-for-duration, on-idle, mouse repeat, switch key-timing, zippychord, dynamic macros); histories: physically consistent, at most one event per millisecond, gaps from {1,2,T-1,T,T+1 of every timeout,50,1200,11000}. Each case is run twice on fresh instances through an emulation of the processing loop on a virtual clock: once blocking whenever the real can-block decision says so (clock jumps to the next event, no ticks) and once ticking every millisecond. Oracle: the complete output, as (virtual time, event), must be identical. Non-trivial: the blocking run blocked at least once with an event following, after a timed structure (pending decision, one-shot, macro, sequence, caps-word, eager tap-dance, v2 chord) had been active. Distinct: hash of (config, history).",
             assumptions: vec![
-                "two events in the same millisecond are excluded (a waking loop processes E-tick-E, a running one E-E-tick: inherent +-1 tick jitter of the real loop) One case in 25 is a zippychord case: a dictionary from the C20 generator (follow-up chords, extensions), paths or prefixes of paths pressed and released, optionally a key outside every chord, with pauses of 5 / 20 / 480 / 520 / 1100 / 10500 ms around the chord deadline, the idle reactivation and the contingency reset. One case in 300 is a real-thread case instead: a time-insensitive configuration (keys, output chords, multi, layer-while-held / layer-switch, transparent, use-defsrc, unmod on two layers) and a history with gaps of 0-70 ms (bursts, and pauses long enough for the loop to block) is run on the real Kanata::start_processing_loop thread in real time and must produce the same sequence of OS transitions as the deterministic stepper (a mismatch has to show again three and ten times slower).".into(),
+                "two events in the same millisecond are excluded (a waking loop processes E-tick-E, a running one E-E-tick: inherent +-1 tick jitter of the real loop) One case in 25 is a zippychord case: a dictionary from the C20 generator (follow-up chords, extensions), paths or prefixes of paths pressed and released, optionally a key outside every chord, with pauses of 5 / 20 / 290 / 310 / 390 / 410 / 1100 / 10500 ms around the chord deadline, the idle reactivation and the contingency reset. One case in 300 is a real-thread case instead: a time-insensitive configuration (keys, output chords, multi, layer-while-held / layer-switch, transparent, use-defsrc, unmod on two layers) and a history with gaps of 0-70 ms (bursts, and pauses long enough for the loop to block) is run on the real Kanata::start_processing_loop thread in real time and must produce the same sequence of OS transitions as the deterministic stepper (a mismatch has to show again three and ten times slower).".into(),
                 "the nanosecond remainder arithmetic of handle_time_ticks is not exercised (virtual clock)".into(),
             ],
             extra: BTreeMap::new(),
